@@ -654,6 +654,20 @@ func c14OwnerFilter(p *core.Prog, r *core.Run, noc *ssa.Function, rule string) {
 		}
 		r.Check(rule, "lookup:use-record", owner && typ, p.InstrPos(s.Instr), "a record's data is returned only when its owner name equals the name being followed (%v) and its type is the type asked for (%v)", owner, typ)
 	}
+	// ... and what was collected is what is returned: not a prefix, a sample or
+	// a reordering of it
+	for i, ret := range core.Returns(noc) {
+		if len(ret.Results) == 0 || !lastResultNil(ret) {
+			continue
+		}
+		cut := ""
+		for _, a := range p.X(ret.Results[0]).Alts() {
+			if a.Op == "slice" || a.Op == "call" && a.Name != "append" {
+				cut = short(a)
+			}
+		}
+		r.Check(rule, fmt.Sprintf("lookup:returns-all#%d", i), cut == "", p.InstrPos(ret), "the lookup returns the list it collected, whole (%s)", cut)
+	}
 	r.Check(rule, "lookup:use-sites", n == 1, p.Pos(noc.Pos()), "one place collects record data (found %d)", n)
 	if wantPhi == nil {
 		r.Check(rule, "lookup:want", false, p.Pos(noc.Pos()), "the name being followed is not carried through the answer loop")
